@@ -340,6 +340,12 @@ Definition run_case (s : sexp) : sexp :=
     if negb (bytes_eqb n (str "c19race")) then v_badcase
     else if (races =? 0) && (fatal =? 0) && negb (callsok =? 0) && sym_eqb e "live" then v_ok (negb (racebuild =? 0))
     else v_specfail "c19-race" (L [I races; I fatal; I callsok; e])
+  (* back-pressure child: a burst of events while the panel reads nothing for 1.5 s and every handler
+     answers with a large state: every event dispatched exactly once, every answer arrives, client live *)
+  | L [S n; I mode; I nevents; I fbkb; L [I callsok; I fbok; e]] =>
+    if negb (bytes_eqb n (str "c19bp")) then v_badcase
+    else if negb (callsok =? 0) && negb (fbok =? 0) && sym_eqb e "live" then v_ok true
+    else v_specfail "c19-backpressure" (L [I callsok; I fbok; e])
   | _ => v_badcase
   end.
 
